@@ -88,33 +88,33 @@ var units = []Unit{
 	// ---- keeper/bid.go
 	{Group: "Bids", Name: "ValidateFixedPriceBid", Pkg: keeperP, Recv: "Keeper", RecvLean: "Keeper", Func: "ValidateFixedPriceBid",
 		Params: []gparam{{Go: "k", T: "Keeper"}, {Go: "ctx"}, {Go: "auction", T: "Auction"}, {Go: "bid", T: "Bid"},
-			{Go: "bidsByBidder__", T: "List Bid", Oracle: true}, {Go: "ab__", T: "Allowed", Oracle: true}, {Go: "abErr__", T: "Err", Oracle: true}},
+			{Go: "bidsByBidder__", T: "Acc → List Bid", Oracle: true}, {Go: "abGet__", T: "Int → Acc → (Allowed × Bool)", Oracle: true}},
 		Ret: []LT{"Err"},
 		Calls: map[string]callSpec{
-			"k.GetBidsByBidder":   {Value: V{"(bidsByBidder__, false)", "(List Bid × Err)"}},
-			"k.AllowedBidder.Get": {Value: V{"(ab__, abErr__)", "(Allowed × Err)"}},
+			"k.GetBidsByBidder":   {Value: V{"(bidsByBidder__ %2, false)", "(List Bid × Err)"}},
+			"k.AllowedBidder.Get": {Value: V{"(abGet__ %2)", "(Allowed × Err)"}},
 		}},
 	{Group: "Bids", Name: "ValidateBatchWorthBid", Pkg: keeperP, Recv: "Keeper", RecvLean: "Keeper", Func: "ValidateBatchWorthBid",
 		Params: []gparam{{Go: "k", T: "Keeper"}, {Go: "ctx"}, {Go: "auction", T: "Auction"}, {Go: "bid", T: "Bid"},
-			{Go: "ab__", T: "Allowed", Oracle: true}, {Go: "abErr__", T: "Err", Oracle: true}},
+			{Go: "abGet__", T: "Int → Acc → (Allowed × Bool)", Oracle: true}},
 		Ret:   []LT{"Err"},
-		Calls: map[string]callSpec{"k.AllowedBidder.Get": {Value: V{"(ab__, abErr__)", "(Allowed × Err)"}}}},
+		Calls: map[string]callSpec{"k.AllowedBidder.Get": {Value: V{"(abGet__ %2)", "(Allowed × Err)"}}}},
 	{Group: "Bids", Name: "ValidateBatchManyBid", Pkg: keeperP, Recv: "Keeper", RecvLean: "Keeper", Func: "ValidateBatchManyBid",
 		Params: []gparam{{Go: "k", T: "Keeper"}, {Go: "ctx"}, {Go: "auction", T: "Auction"}, {Go: "bid", T: "Bid"},
-			{Go: "ab__", T: "Allowed", Oracle: true}, {Go: "abErr__", T: "Err", Oracle: true}},
+			{Go: "abGet__", T: "Int → Acc → (Allowed × Bool)", Oracle: true}},
 		Ret:   []LT{"Err"},
-		Calls: map[string]callSpec{"k.AllowedBidder.Get": {Value: V{"(ab__, abErr__)", "(Allowed × Err)"}}}},
+		Calls: map[string]callSpec{"k.AllowedBidder.Get": {Value: V{"(abGet__ %2)", "(Allowed × Err)"}}}},
 	{Group: "Bids", Name: "PlaceBid", Pkg: keeperP, Recv: "Keeper", RecvLean: "Keeper", Func: "PlaceBid",
 		Params: []gparam{{Go: "k", T: "Keeper"}, {Go: "ctx"}, {Go: "msg", T: "PlaceMsgK"},
-			{Go: "auction__", T: "Auction", Oracle: true}, {Go: "auctionErr__", T: "Err", Oracle: true},
-			{Go: "bidID__", T: "Int", Oracle: true},
-			{Go: "bidsByBidder__", T: "List Bid", Oracle: true}, {Go: "ab__", T: "Allowed", Oracle: true}, {Go: "abErr__", T: "Err", Oracle: true}},
+			{Go: "auctionGet__", T: "Int → (Auction × Bool)", Oracle: true},
+			{Go: "bidID__", T: "Int → Int", Oracle: true},
+			{Go: "bidsByBidder__", T: "Acc → List Bid", Oracle: true}, {Go: "abGet__", T: "Int → Acc → (Allowed × Bool)", Oracle: true}},
 		Ret: []LT{"Bid", "Err"}, EffectsOn: true,
 		Calls: map[string]callSpec{
-			"k.Auction.Get":            {Value: V{"(auction__, auctionErr__)", "(Auction × Err)"}},
-			"k.AllowedBidder.Get":      {Value: V{"(ab__, abErr__)", "(Allowed × Err)"}},
+			"k.Auction.Get":            {Value: V{"(auctionGet__ %2)", "(Auction × Err)"}},
+			"k.AllowedBidder.Get":      {Value: V{"(abGet__ %2)", "(Allowed × Err)"}},
 			"k.PayPlaceBidFee":         {Effect: "payPlaceBidFee", Args: []int{1}},
-			"k.GetNextBidIdWithUpdate": {Value: V{"(bidID__, false)", "(Int × Err)"}, Effect: "nextBidId", Args: []int{1}},
+			"k.GetNextBidIdWithUpdate": {Value: V{"(bidID__ %2, false)", "(Int × Err)"}, Effect: "nextBidId", Args: []int{1}},
 			"k.ReservePayingCoin":      {Effect: "reservePayingCoin", Args: []int{1, 2, 3}},
 			"k.Auction.Set":            {Effect: "auctionSet", Args: []int{1, 2}},
 			"k.BeforeBidPlaced":        {Effect: "beforeBidPlaced", Args: []int{1, 2, 3, 4, 5, 6}},
@@ -123,12 +123,12 @@ var units = []Unit{
 		}},
 	{Group: "Bids", Name: "ModifyBid", Pkg: keeperP, Recv: "Keeper", RecvLean: "Keeper", Func: "ModifyBid",
 		Params: []gparam{{Go: "k", T: "Keeper"}, {Go: "ctx"}, {Go: "msg", T: "ModifyMsg"},
-			{Go: "auction__", T: "Auction", Oracle: true}, {Go: "auctionErr__", T: "Err", Oracle: true},
-			{Go: "bid__", T: "Bid", Oracle: true}, {Go: "bidErr__", T: "Err", Oracle: true}},
+			{Go: "auctionGet__", T: "Int → (Auction × Bool)", Oracle: true},
+			{Go: "bidGet__", T: "Int → Int → (Bid × Bool)", Oracle: true}},
 		Ret: []LT{"Err"}, EffectsOn: true,
 		Calls: map[string]callSpec{
-			"k.Auction.Get":       {Value: V{"(auction__, auctionErr__)", "(Auction × Err)"}},
-			"k.Bid.Get":           {Value: V{"(bid__, bidErr__)", "(Bid × Err)"}},
+			"k.Auction.Get":       {Value: V{"(auctionGet__ %2)", "(Auction × Err)"}},
+			"k.Bid.Get":           {Value: V{"(bidGet__ %2)", "(Bid × Err)"}},
 			"k.ReservePayingCoin": {Effect: "reservePayingCoin", Args: []int{1, 2, 3}},
 			"k.BeforeBidModified": {Effect: "beforeBidModified", Args: []int{1, 2, 3, 4, 5, 6}},
 			"k.Bid.Set":           {Effect: "bidSet", Args: []int{1, 2}},
@@ -136,8 +136,8 @@ var units = []Unit{
 }
 
 func init() {
-	auctionGet := callSpec{Value: V{"(auction__, auctionErr__)", "(Auction × Err)"}}
-	auctionOr := []gparam{{Go: "auction__", T: "Auction", Oracle: true}, {Go: "auctionErr__", T: "Err", Oracle: true}}
+	auctionGet := callSpec{Value: V{"(auctionGet__ %2)", "(Auction × Err)"}}
+	auctionOr := []gparam{{Go: "auctionGet__", T: "Int → (Auction × Bool)", Oracle: true}}
 	kctx := []gparam{{Go: "k", T: "Keeper"}, {Go: "ctx"}}
 	mk := func(ps ...[]gparam) []gparam {
 		var out []gparam
@@ -181,11 +181,11 @@ func init() {
 			}},
 		Unit{Group: "Auctions", Name: "UpdateAllowedBidder", Pkg: keeperP, Recv: "Keeper", RecvLean: "Keeper", Func: "UpdateAllowedBidder",
 			Params: mk(kctx, []gparam{{Go: "auctionId", T: "Int"}, {Go: "bidder", T: "Acc"}, {Go: "maxBidAmount", T: "Int"}}, auctionOr,
-				[]gparam{{Go: "ab__", T: "Allowed", Oracle: true}, {Go: "abErr__", T: "Err", Oracle: true}}),
+				[]gparam{{Go: "abGet__", T: "Int → Acc → (Allowed × Bool)", Oracle: true}}),
 			Ret: []LT{"Err"}, EffectsOn: true,
 			Calls: map[string]callSpec{
 				"k.Auction.Get":                {Value: auctionGet.Value},
-				"k.AllowedBidder.Get":          {Value: V{"(ab__, abErr__)", "(Allowed × Err)"}},
+				"k.AllowedBidder.Get":          {Value: V{"(abGet__ %2)", "(Allowed × Err)"}},
 				"k.BeforeAllowedBidderUpdated": {Effect: "beforeAllowedBidderUpdated", Args: []int{1, 2, 3}},
 				"k.AllowedBidder.Set":          {Effect: "allowedSet", Args: []int{1, 2}},
 			}},
@@ -238,10 +238,10 @@ func init() {
 				"k.ApplyVestingSchedules":         {Effect: "applyVestingSchedules", Args: []int{1}},
 			}},
 		Unit{Group: "Settle", Name: "CloseBatchAuction", Pkg: keeperP, Recv: "Keeper", RecvLean: "Keeper", Func: "CloseBatchAuction",
-			Params: mk(kctx, []gparam{{Go: "auction", T: "Auction"}, {Go: "lastMatchedLen__", T: "Int", Oracle: true}, {Go: "mInfo__", T: "MInfo", Oracle: true}}),
+			Params: mk(kctx, []gparam{{Go: "auction", T: "Auction"}, {Go: "lastMatchedLen__", T: "Int → Int", Oracle: true}, {Go: "mInfo__", T: "MInfo", Oracle: true}}),
 			Ret:    []LT{"Err"}, EffectsOn: true,
 			Calls: map[string]callSpec{
-				"k.GetLastMatchedBidsLen":      {Value: V{"(lastMatchedLen__, false)", "(Int × Err)"}},
+				"k.GetLastMatchedBidsLen":      {Value: V{"(lastMatchedLen__ %2, false)", "(Int × Err)"}},
 				"k.CalculateBatchAllocation":   {Value: V{"(mInfo__, false)", "(MInfo × Err)"}, Effect: "calcBatch", Args: []int{1}},
 				"k.AllocateSellingCoin":        {Effect: "allocateSellingCoin", Args: []int{1, 2}},
 				"k.RefundRemainingSellingCoin": {Effect: "refundRemainingSellingCoin", Args: []int{1}},
@@ -264,10 +264,10 @@ func init() {
 				"k.Auction.Set":               {Effect: "auctionSet", Args: []int{1, 2}},
 			}},
 		Unit{Group: "Settle", Name: "ReleaseVestingPayingCoin", Pkg: keeperP, Recv: "Keeper", RecvLean: "Keeper", Func: "ReleaseVestingPayingCoin",
-			Params: mk(kctx, []gparam{{Go: "auction", T: "Auction"}, {Go: "vqs__", T: "List VQ", Oracle: true}, {Go: "now__", T: "Time", Oracle: true}}),
+			Params: mk(kctx, []gparam{{Go: "auction", T: "Auction"}, {Go: "vqs__", T: "Int → List VQ", Oracle: true}, {Go: "now__", T: "Time", Oracle: true}}),
 			Ret:    []LT{"Err"}, EffectsOn: true,
 			Calls: map[string]callSpec{
-				"k.GetVestingQueuesByAuctionId": {Value: V{"(vqs__, false)", "(List VQ × Err)"}},
+				"k.GetVestingQueuesByAuctionId": {Value: V{"(vqs__ %2, false)", "(List VQ × Err)"}},
 				"k.bankKeeper.SendCoins":        {Effect: "sendCoins", Args: []int{1, 2, 3}},
 				"k.VestingQueue.Set":            {Effect: "vqSet", Args: []int{1, 2}},
 				"k.Auction.Set":                 {Effect: "auctionSet", Args: []int{1, 2}},
@@ -283,17 +283,17 @@ func init() {
 			Ret: []LT{"Option MState", "Bool"}, Named: []string{"res", "matched"}, NamedTypes: map[string]LT{"res": "MState", "matched": "Bool"},
 			Alias: map[string]aliasSpec{"bidderRes": {Base: "res", Field: "MatchResultByBidder", Key: "bid", KeyField: ".bidder"}}},
 		Unit{Group: "Match", Name: "CalculateFixedPriceAllocation", Pkg: keeperP, Recv: "Keeper", RecvLean: "Keeper", Func: "CalculateFixedPriceAllocation",
-			Params: []gparam{{Go: "k", T: "Keeper"}, {Go: "ctx"}, {Go: "auction", T: "Auction"}, {Go: "bids__", T: "List Bid", Oracle: true}},
+			Params: []gparam{{Go: "k", T: "Keeper"}, {Go: "ctx"}, {Go: "auction", T: "Auction"}, {Go: "bids__", T: "Int → List Bid", Oracle: true}},
 			Ret:    []LT{"MInfoG", "Err"},
-			Calls:  map[string]callSpec{"k.GetBidsByAuctionId": {Value: V{"(bids__, false)", "(List Bid × Err)"}}}},
+			Calls:  map[string]callSpec{"k.GetBidsByAuctionId": {Value: V{"(bids__ %2, false)", "(List Bid × Err)"}}}},
 	)
 }
 
 func init() {
 	kctx := []gparam{{Go: "k", T: "Keeper"}, {Go: "ctx"}}
 	codec := callSpec{Value: V{"(%1, !validAcc %1)", "(Acc × Err)"}}
-	auctionOr := []gparam{{Go: "auction__", T: "Auction", Oracle: true}, {Go: "auctionErr__", T: "Err", Oracle: true}}
-	abOr := []gparam{{Go: "ab__", T: "Allowed", Oracle: true}, {Go: "abErr__", T: "Err", Oracle: true}}
+	auctionOr := []gparam{{Go: "auctionGet__", T: "Int → (Auction × Bool)", Oracle: true}}
+	abOr := []gparam{{Go: "abGet__", T: "Int → Acc → (Allowed × Bool)", Oracle: true}}
 	cat := func(ps ...[]gparam) []gparam {
 		var out []gparam
 		for _, p := range ps {
@@ -320,11 +320,11 @@ func init() {
 			}},
 		// ---- keeper/msg_server.go: the message server adds the address-codec check and calls the keeper
 		Unit{Group: "Server", Name: "MsgServer_PlaceBid", Pkg: keeperP, Recv: "msgServer", RecvLean: "msgServer", Func: "PlaceBid",
-			Params: cat(kctx, []gparam{{Go: "msg", T: "PlaceMsgK"}}, auctionOr, []gparam{{Go: "bidID__", T: "Int", Oracle: true},
-				{Go: "bidsByBidder__", T: "List Bid", Oracle: true}}, abOr),
+			Params: cat(kctx, []gparam{{Go: "msg", T: "PlaceMsgK"}}, auctionOr, []gparam{{Go: "bidID__", T: "Int → Int", Oracle: true},
+				{Go: "bidsByBidder__", T: "Acc → List Bid", Oracle: true}}, abOr),
 			Ret: []LT{"Unit", "Err"}, EffectsOn: true, Calls: map[string]callSpec{"k.addressCodec.StringToBytes": codec}},
 		Unit{Group: "Server", Name: "MsgServer_ModifyBid", Pkg: keeperP, Recv: "msgServer", RecvLean: "msgServer", Func: "ModifyBid",
-			Params: cat(kctx, []gparam{{Go: "msg", T: "ModifyMsg"}}, auctionOr, []gparam{{Go: "bid__", T: "Bid", Oracle: true}, {Go: "bidErr__", T: "Err", Oracle: true}}),
+			Params: cat(kctx, []gparam{{Go: "msg", T: "ModifyMsg"}}, auctionOr, []gparam{{Go: "bidGet__", T: "Int → Int → (Bid × Bool)", Oracle: true}}),
 			Ret:    []LT{"Unit", "Err"}, EffectsOn: true, Calls: map[string]callSpec{"k.addressCodec.StringToBytes": codec}},
 		Unit{Group: "Server", Name: "MsgServer_CancelAuction", Pkg: keeperP, Recv: "msgServer", RecvLean: "msgServer", Func: "CancelAuction",
 			Params: cat(kctx, []gparam{{Go: "msg", T: "CancelMsg"}}, auctionOr, []gparam{{Go: "bal__", T: "BankFn", Oracle: true}}),
@@ -342,14 +342,14 @@ func init() {
 	units = append(units,
 		Unit{Group: "Match", Name: "CalculateBatchAllocation", Pkg: keeperP, Recv: "Keeper", RecvLean: "Keeper", Func: "CalculateBatchAllocation",
 			Params: []gparam{{Go: "k", T: "Keeper"}, {Go: "ctx"}, {Go: "auction", T: "Auction"},
-				{Go: "bids__", T: "List Bid", Oracle: true}, {Go: "prices__", T: "List Dec", Oracle: true},
-				{Go: "byPrice__", T: "Map Dec List Bid", Oracle: true}, {Go: "allowed__", T: "List Allowed", Oracle: true},
+				{Go: "bids__", T: "Int → List Bid", Oracle: true}, {Go: "prices__", T: "List Dec", Oracle: true},
+				{Go: "byPrice__", T: "Map Dec List Bid", Oracle: true}, {Go: "allowed__", T: "Int → List Allowed", Oracle: true},
 				{Go: "keysR__", T: "List Acc", Oracle: true}, {Go: "keysM__", T: "List Acc", Oracle: true}},
 			Ret: []LT{"MInfoG", "Err"}, EffectsOn: true,
 			Calls: map[string]callSpec{
-				"k.GetBidsByAuctionId":         {Value: V{"(bids__, false)", "(List Bid × Err)"}},
+				"k.GetBidsByAuctionId":         {Value: V{"(bids__ %2, false)", "(List Bid × Err)"}},
 				"types.BidsByPrice":            {Value: V{"(prices__, byPrice__)", "(List Dec × Map Dec List Bid)"}},
-				"k.GetAllowedBiddersByAuction": {Value: V{"(allowed__, false)", "(List Allowed × Err)"}},
+				"k.GetAllowedBiddersByAuction": {Value: V{"(allowed__ %2, false)", "(List Allowed × Err)"}},
 				"k.Bid.Set":                    {Effect: "bidSet", Args: []int{1, 2}},
 				"k.SetMatchedBidsLen":          {Effect: "matchedLenSet", Args: []int{1, 2}},
 			},
